@@ -9,7 +9,6 @@ import (
 	"bytes"
 	"encoding/json"
 	"fmt"
-	"strconv"
 	"strings"
 	"sync"
 )
@@ -139,7 +138,7 @@ func (ego *object) serialize() string {
 	result.WriteRune('{')
 	i := 0
 	for field, value := range ego.val {
-		result.WriteString(fmt.Sprintf("%s:%s", strconv.Quote(field), value.serialize()))
+		result.WriteString(fmt.Sprintf("%s:%s", quoteJSON(field), value.serialize()))
 		if i++; i < len(ego.val) {
 			result.WriteRune(',')
 		}
